@@ -123,7 +123,7 @@ func versionTemplates(eco, size string) []string {
 	case "hex":
 		s = expandAll("{d}.{d}.{d}(|"+semverPre[1:len(semverPre)-1]+")", "{d}{d}.{d}.{d}", "{d}.{d}.{d}+{n}")
 		m = expandAll("{d}.{d}.{d}(|"+semverPre[1:len(semverPre)-1]+")(|+{n})", "{d}{d}.{d}.{d}", "{d}.{d}")
-		l = expandAll("{d}.{d}.{d}(|"+semverPreL[1:len(semverPreL)-1]+"|-{n}..{n}|-.{n})(|+{n}|+{i}.{i})", "{d}{d}.{d}{d}.{d}{d}(|-{n}.{n})", "{d}.{d}")
+		l = expandAll("{d}.{d}.{d}(|"+semverPreL[1:len(semverPreL)-1]+")(|+{n}|+{i}.{i})", "{d}{d}.{d}{d}.{d}{d}(|-{n}.{n})", "{d}.{d}")
 	case "golang":
 		ts14 := "20{d}{d}0{D}1{d}1{d}{[0-5]}{d}{[0-5]}{d}" // a valid 14-digit timestamp shape
 		pseudo := []string{"v{d}.0.0-" + ts14 + "-{h}{h}{h}{h}{h}{h}{h}{h}{h}{h}{h}{h}", "v{d}.{d}.{d}-0." + ts14 + "-{h}{h}{h}{h}{h}{h}{h}{h}{h}{h}{h}{h}", "v{d}.{d}.{d}-{l}{l}.0." + ts14 + "-{h}{h}{h}{h}{h}{h}{h}{h}{h}{h}{h}{h}"}
